@@ -1578,7 +1578,7 @@ fn gen_raw(rng: &mut Rng, kind: &str, n: u64, len: u64) -> Vec<String> {
 fn generate(tier: &str, rng: &mut Rng) -> Vec<Case> {
     let thorough = tier == "thorough";
     let mut cases = vec![];
-    let n_random = if thorough { 30000 } else { 2000 };
+    let n_random = if thorough { 16000 } else { 1200 };
     let lens = [8u64, 16, 32, 64, 1, 3, 24];
     for c in 0..n_random {
         let kind = if c % 2 == 0 { "ring" } else { "fb" };
